@@ -123,6 +123,10 @@ class Hooks:
         """memory cell whose fact survives calls (declared input of a decision cell)"""
         return False
 
+    def load_override(self, ptrexpr, E):
+        """value of a load from `ptrexpr` that the decision cell fixes regardless of what was stored before"""
+        return None
+
     def load_value(self, ptrexpr, E):
         """value of a load from `ptrexpr` fixed by the decision cell (consulted when no memory fact is known)"""
         return None
@@ -146,12 +150,22 @@ class Eval:
         """expression of `ref` with phis replaced by the value that reached them on this path"""
         for _ in range(8):
             i = self.fn.inst(ref)
-            if i is None or i.op != "phi":
+            if i is None:
                 break
-            al = self.facts.get(("A", ref))
-            if al is None:
+            if i.op == "phi":
+                al = self.facts.get(("A", ref))
+                if al is None:
+                    break
+                ref = al
+            elif i.op == "select":
+                c = av_single(self.val(i["c"]))
+                if c is None:
+                    break
+                ref = i["a"] if c else i["b"]
+            elif i.op == "bitcast":
+                ref = i["a"]
+            else:
                 break
-            ref = al
         return self.flow.expr(ref)
 
     def val(self, ref, depth=10):
@@ -247,9 +261,20 @@ class Eval:
                 if e[0] == "c" and isinstance(e[1], int):
                     return ("in", frozenset([e[1]]))
             pe = self.flow.expr(d["ptr"])
-            v = self.facts.get(("M", pe))
+            v = self.flow.hooks.load_override(pe, self)
+            if v is None:
+                v = self.facts.get(("M", pe))
             if v is None:
                 v = self.flow.hooks.load_value(pe, self)
+            if v is None and pe[0] in ("phi", "select"):
+                # the address was chosen on this path (p = c ? &a : &b): look the cell up under the address actually taken
+                pe2 = self.path_expr(d["ptr"])
+                if pe2 != pe:
+                    v = self.flow.hooks.load_override(pe2, self)
+                    if v is None:
+                        v = self.facts.get(("M", pe2))
+                    if v is None:
+                        v = self.flow.hooks.load_value(pe2, self)
             return v
         if op in ("call", "invoke"):
             return self.flow.hooks.call_value(i, self) or None
